@@ -28,10 +28,10 @@ def b3_configs(tier):
 def run(chk, tier, seed):
     m = sc.b3(chk, b3_configs(tier))
     if tier == "quick":
-        scns = storegen.small_forests_exhaustive(3) + storegen.forest_scenarios(150, seed)
+        scns = storegen.small_forests_exhaustive(3) + storegen.forest_scenarios(80, seed)
     else:
         scns = storegen.small_forests_exhaustive(4, batches=(1, 2, 3, storegen.BIG)) + \
-            storegen.forest_scenarios(1500, seed, maxnodes=5, maxtrees=6)
+            storegen.forest_scenarios(800, seed, maxnodes=5, maxtrees=6)
     st = {}
     n, ndrift = sc.run_and_validate(chk, scns, CLAUSES, stats=st)
     nontriv = sum(1 for s in scns if len({x["job"] for x in s["runs"][0]["spans"]}) >= 2)
@@ -39,7 +39,7 @@ def run(chk, tier, seed):
            "transitions": m["transitions"] + st.get("conf_generated", 0) + st.get("obs_generated", 0),
            "traces_validated_against_impl": n, "evaluations": n, "distinct_nontrivial": nontriv,
            "rule": "all pairs of call-tree shapes up to the tier's size (same / different workflow name) x batch sizes, "
-                   "plus seeded forests of 1-5 traces with repeated shapes, each in two presentations; non-trivial = store "
+                   "plus seeded forests of 1-5 traces with repeated shapes, each in four presentations (order of ingestion, batch size); non-trivial = store "
                    "with at least two traces",
            "model_runs": m["runs"], "model_drift_executions": ndrift, "conformance_action_counts": st.get("actions", {}),
            "exhaustive": False}
